@@ -1,6 +1,7 @@
 package props
 
 import (
+	"bytes"
 	"encoding/json"
 	"fmt"
 	"math/big"
@@ -243,6 +244,89 @@ func c19Faithful(a c19Doc) caseResult {
 	return caseResult{Trivial: len(g) < 8, Info: map[string]any{"leaves": len(g), "proof_bytes": len(a.Proof)}}
 }
 
+// Histories: several documents are read (through the byte readers or the path readers) before any
+// of them is turned into an assignment, as a server that parses requests first and proves later
+// would do.  Every assignment must still carry exactly the numbers of its own document.
+type c19Hist struct {
+	Docs    []c19Doc `json:"documents"`
+	ViaPath []bool   `json:"read_from_file"`
+	Order   []int    `json:"deserialize_order"`
+}
+
+func c19HistRun(a c19Hist) caseResult {
+	type rawPair struct {
+		p types.ProofWithPublicInputsRaw
+		v types.VerifierOnlyCircuitDataRaw
+	}
+	raws := make([]rawPair, len(a.Docs))
+	for i, d := range a.Docs {
+		var refused string
+		func() {
+			defer func() {
+				if r := recover(); r != nil {
+					refused = fmt.Sprint(r)
+				}
+			}()
+			if a.ViaPath[i] {
+				write := func(b []byte) string {
+					f, _ := os.CreateTemp(os.Getenv("VERIF_OUT"), "c19-*.json")
+					f.Write(b)
+					f.Close()
+					return f.Name()
+				}
+				pf, vf := write(d.Proof), write(d.VData)
+				defer os.Remove(pf)
+				defer os.Remove(vf)
+				raws[i] = rawPair{types.ReadProofWithPublicInputs(pf), types.ReadVerifierOnlyCircuitData(vf)}
+			} else {
+				raws[i] = rawPair{types.ReadProofWithPublicInputsFromRequest(d.Proof), types.ReadVerifierOnlyCircuitDataFromRequest(d.VData)}
+			}
+		}()
+		if refused != "" {
+			return caseResult{Viol: "history/wellformed-refused", Desc: fmt.Sprintf("well-formed document %d of %d refused at read: %s", i, len(a.Docs), truncate(refused, 200))}
+		}
+	}
+	for _, i := range a.Order {
+		var got []string
+		var pis []uint64
+		var refused string
+		func() {
+			defer func() {
+				if r := recover(); r != nil {
+					refused = fmt.Sprint(r)
+				}
+			}()
+			pw, p := variables.DeserializeProofWithPublicInputs(raws[i].p)
+			vd := variables.DeserializeVerifierOnlyCircuitData(raws[i].v)
+			c := &verifier.VerifierCircuit{Proof: pw.Proof, PublicInputs: pw.PublicInputs, VerifierData: vd}
+			vals, names, err := eng.Leaves(c)
+			if err != nil {
+				panic(err)
+			}
+			for j := range vals {
+				got = append(got, names[j]+"="+eng.ValueOf(vals[j].Interface()).String())
+			}
+			pis = p
+		}()
+		if refused != "" {
+			return caseResult{Viol: "history/wellformed-refused", Desc: fmt.Sprintf("well-formed document %d refused at deserialisation: %s", i, truncate(refused, 200))}
+		}
+		want := a.Docs[i].Want
+		if len(got) != len(want) {
+			return caseResult{Viol: "history/leaf-count", Desc: fmt.Sprintf("%d documents read (%v from files) before deserialising: document %d has %d numbers, its assignment has %d leaves", len(a.Docs), a.ViaPath, i, len(want), len(got))}
+		}
+		for j := range got {
+			if got[j] != want[j] {
+				return caseResult{Viol: "history/leaf-mismatch", Desc: fmt.Sprintf("%d documents read (%v from files) before deserialising: assignment of document %d has %s, the document says %s", len(a.Docs), a.ViaPath, i, got[j], want[j])}
+			}
+		}
+		if !reflect.DeepEqual(pis, a.Docs[i].PIs) && !(len(pis) == 0 && len(a.Docs[i].PIs) == 0) {
+			return caseResult{Viol: "history/public-inputs", Desc: fmt.Sprintf("document %d: returned public inputs %v, document has %v", i, pis, a.Docs[i].PIs)}
+		}
+	}
+	return caseResult{Info: map[string]any{"documents": len(a.Docs)}}
+}
+
 func setAtPath(doc any, path []any, v any) {
 	cur := doc
 	for _, p := range path[:len(path)-1] {
@@ -346,11 +430,12 @@ func TestC19(t *testing.T) {
 	s := newSuite("C19")
 	r := s.r
 	defer r.Flush()
-	r.Rule("model-generated proof / verifier-data documents with random shapes (cap sizes 0..17, 0..4 query rounds, 0..5 eval proofs of leaf width 0..12, 0..3 steps with 0..17 evaluations, sibling counts 0..13, opening lists 0..9, 0..20 public inputs) and values (64-bit numbers incl. >= p and 2^64-1; decimal hash strings incl. r-1, r, values up to 2^260) are read with the repository's readers and compared leaf by leaf (name and value, in schema order) with the model; single-value edits must change exactly that leaf; single-value corruptions from the listed classes (non-numeric / non-decimal string, negative, fractional, >= 2^64 number, scalar where a list is expected, number where a string is expected) must be refused at read, deserialise or witness time; random common-circuit-data documents must arrive field by field.  Non-trivial = document with at least 8 numbers; distinct = document.")
+	r.Rule("model-generated proof / verifier-data documents with random shapes (cap sizes 0..17, 0..4 query rounds, 0..5 eval proofs of leaf width 0..12, 0..3 steps with 0..17 evaluations, sibling counts 0..13, opening lists 0..9, 0..20 public inputs) and values (64-bit numbers incl. >= p and 2^64-1; decimal hash strings incl. r-1, r, values up to 2^260) are read with the repository's readers and compared leaf by leaf (name and value, in schema order) with the model; single-value edits must change exactly that leaf; single-value corruptions from the listed classes (non-numeric / non-decimal string, negative, fractional, >= 2^64 number, scalar where a list is expected, number where a string is expected) must be refused at read, deserialise or witness time; random common-circuit-data documents must arrive field by field; histories: 2..4 documents are read (byte readers or path readers) before any is deserialised, then deserialised in a drawn order, each assignment must carry exactly its own document's numbers.  Non-trivial = document with at least 8 numbers; distinct = document.")
 	r.Assume("signed decimal strings and JSON null are outside the listed corruption classes and are not generated")
 	s.on("faithful", func(b json.RawMessage) caseResult { return c19Faithful(unmarshal[c19Doc](b)) })
 	s.on("corrupt", func(b json.RawMessage) caseResult { return c19CorruptRun(unmarshal[c19Corrupt](b)) })
 	s.on("common", func(b json.RawMessage) caseResult { return c19CommonRun(unmarshal[c19Common](b)) })
+	s.on("history", func(b json.RawMessage) caseResult { return c19HistRun(unmarshal[c19Hist](b)) })
 	if s.replay(t) {
 		return
 	}
@@ -381,6 +466,57 @@ func TestC19(t *testing.T) {
 			pis[site.Path[1].(int)] = want[site.Leaf].Val.Uint64()
 		}
 		s.exec(rt, "faithful", c19Doc{marshal(m.Proof), marshal(m.VData), kvStrings(want), pis}, "faithful/one-value-edited")
+	})
+	rapidCheck(t, "history", tierN(400, 10000), func(rt *rapid.T) {
+		n := rapid.IntRange(2, 4).Draw(rt, "documents")
+		h := c19Hist{}
+		var first *docModel
+		for i := 0; i < n; i++ {
+			if i > 0 && len(first.Sites) > 0 && rapid.IntRange(0, 2).Draw(rt, "same-shape") == 0 {
+				// same shape as the first document, one number different (decoded copy of the first)
+				site := first.Sites[rapid.IntRange(0, len(first.Sites)-1).Draw(rt, "site")]
+				want := append([]leafKV{}, first.Leaves...)
+				var nv any
+				if site.IsStr {
+					x := genHashStr().Draw(rt, "newhash")
+					want[site.Leaf] = leafKV{want[site.Leaf].Name, new(big.Int).Mod(x, bigR)}
+					nv = x.String()
+				} else {
+					x := genU64().Draw(rt, "newval")
+					want[site.Leaf] = leafKV{want[site.Leaf].Name, new(big.Int).SetUint64(x)}
+					nv = json.Number(fmt.Sprint(x))
+				}
+				decode := func(v any) any {
+					var o any
+					d := json.NewDecoder(bytes.NewReader(marshal(v)))
+					d.UseNumber()
+					if err := d.Decode(&o); err != nil {
+						panic(err)
+					}
+					return o
+				}
+				pd, vd := decode(first.Proof), decode(first.VData)
+				setAtPath(map[string]any{"proof": pd, "vdata": vd}[site.Doc], site.Path, nv)
+				pis := append([]uint64{}, first.PIs...)
+				if site.Path[0] == "public_inputs" {
+					pis[site.Path[1].(int)] = want[site.Leaf].Val.Uint64()
+				}
+				h.Docs = append(h.Docs, c19Doc{marshal(pd), marshal(vd), kvStrings(want), pis})
+			} else {
+				m := genDoc(rt)
+				if i == 0 {
+					first = m
+				}
+				h.Docs = append(h.Docs, c19Doc{marshal(m.Proof), marshal(m.VData), kvStrings(m.Leaves), m.PIs})
+			}
+			h.ViaPath = append(h.ViaPath, rapid.IntRange(0, 3).Draw(rt, "file") == 0)
+		}
+		ord := make([]int, n)
+		for i := range ord {
+			ord[i] = i
+		}
+		h.Order = rapid.Permutation(ord).Draw(rt, "order")
+		s.exec(rt, "history", h, fmt.Sprintf("history/%d-documents", n))
 	})
 	rapidCheck(t, "corrupt", tierN(1500, 40000), func(rt *rapid.T) {
 		m := genDoc(rt)
